@@ -63,7 +63,12 @@ class ConciliationMonitor(Monitor):
         record = {'inst': inst.nick, 'inc': inst.inc, 't': w.now, 'step': w.steps, 'strategy': strategy.name,
                   'conflicts': {p.namespec: sorted(w.by_identifier.get(i) for i in p.running_identifiers)
                                 for p in conflicts},
-                  'closed': False, 'stops': [], 'starts': []}
+                  'closed': False, 'stops': [], 'starts': [],
+                  # copies seen RUNNING whose start instant the Master never learnt (no STARTING event received: its
+                  # uptime is then the whole monotonic clock of the host)
+                  'unknown_start': {p.namespec for p in conflicts
+                                    if any(p.info_map[i].get('start_monotonic', 0) == 0 and
+                                           p.info_map[i].get('state') == 20 for i in p.running_identifiers)}}
         # stops that were already in progress for a copy when the round begins
         record['open'] = {(r['namespec'], r['target_nick']) for r in self.tracker.open_stops
                           if r['sender'] == inst.nick and r['inc'] == inst.inc}
@@ -248,7 +253,10 @@ class ConciliationMonitor(Monitor):
                     continue
                 if self.sees(inst, nick) != 'RUNNING':
                     continue
-                self.violate(f"C05/copy-not-stopped:{record['strategy']}",
+                mech = ''
+                if namespec in record['unknown_start'] and record['strategy'] in ('SENICIDE', 'INFANTICIDE'):
+                    mech = ':start-instant-of-a-copy-unknown-to-the-master'
+                self.violate(f"C05/copy-not-stopped:{record['strategy']}{mech}",
                              f"{inst.nick} conciliated {namespec} running on {copies} with {record['strategy']} at "
                              f"vt={round(record['t'] - 1_700_000_000.0, 3)} but never asked {nick} to stop it "
                              f"(asked: {sorted(asked)}; round closed at vt={vt(w)})", case=self.run.describe())
